@@ -54,6 +54,7 @@ type PlayOpts struct {
 	Decks    []string // "seeded","rank","split"
 	Policies []string // names; empty = any
 	MaxWait  time.Duration
+	NoJitter bool
 }
 
 // PlayMon are the oracle hooks of a check.
@@ -557,7 +558,14 @@ func RunPlayCfg(c *h.Ctx, cfg h.TableCfg, po PlayOpts, mon *PlayMon) *Play {
 		p.Exp[pl.ID] = pl.Chips
 		p.In += pl.Chips
 	}
-	ss, err := h.StartSession(cfg, c.R, onEv)
+	// every fourth case runs with a slow, jittery consumer on the engine's callback goroutines
+	var jit float64
+	var jmax time.Duration
+	if c.Case%4 == 1 && !po.NoJitter {
+		jit, jmax = 0.15, 400*time.Microsecond
+		c.Feature("callback-jitter")
+	}
+	ss, err := h.StartSessionJ(cfg, c.R, onEv, jit, jmax)
 	p.SS = ss
 	if err != nil {
 		c.Inconclusive(fmt.Sprintf("session did not start: %v cfg=%+v", err, cfg))
